@@ -547,6 +547,13 @@ theorem bulk_terminates (ops : List Op) (hw : WfRun World.init ops) (k : Nat) (e
     (bulkAlias (run World.init ops) k entries).err ≠ some .hang ∧ Inv (bulkAlias (run World.init ops) k entries).w :=
   ⟨bulkAlias_no_hang (inv_reachable ops hw) k entries, inv_bulkAlias (inv_reachable ops hw) k entries⟩
 
+/-- **… performing the links or raising**: when the bulk form returns normally in a reachable world,
+every entry `key -> value` of the map is a registered link "`key` follows `value`" of the object. -/
+theorem bulk_performs_links (ops : List Op) (hw : WfRun World.init ops) (k : Nat) (entries : List (String × String))
+    (ok : (bulkAlias (run World.init ops) k entries).err = none) :
+    ∀ e ∈ mkMap entries, Linked (bulkAlias (run World.init ops) k entries).w k (aliasId e.2 e.1) :=
+  bulkAlias_linked (inv_reachable ops hw) k entries ok
+
 /-- the other loops touched by the repairs: the pair form and the four update routes return too -/
 theorem alias_and_updates_terminate (ops : List Op) (hw : WfRun World.init ops) (k : Nat) :
     (∀ p1 p2, (aliasPair (run World.init ops) k p1 p2).err ≠ some .hang) ∧
